@@ -119,7 +119,7 @@ func (e c22cEvent) String() string {
 
 type c22cScenario struct {
 	name    string
-	heavy   bool // one of the largest scenarios with the removal job worker: bound 2 also in the thorough tier
+	class   int // 0 small; 1 large (the removal job worker runs, 11k-15k executions at bound 2); 2 largest (17k-31k)
 	init    []c22cOp
 	threads [][]c22cOp
 }
@@ -854,33 +854,37 @@ func c22cScenarios() []c22cScenario {
 	// op0=(f1,a) op1=(f1,b) op2=(f2,a) op3=(f2,b); filters: a all, f reject fact f1, o reject op1, n reject all.
 	// Whenever setRemoveNewOperations runs (a filter rejects, an older duplicate is dropped, R) its job worker adds 2-3
 	// daemon threads and ~25 scheduling points, and every blocking point of a daemon is a free choice of the explorer.
-	// heavy = the four largest of those scenarios (17k-31k executions at bound 2, 200k-330k at bound 3): they stay at
-	// bound 2 in the thorough tier. The order balances the shards (the large scenarios come first).
+	// class 1 = the three scenarios of 11k-15k executions at bound 2 (110k-150k at bound 3), class 2 = the four of
+	// 17k-31k (200k-330k at bound 3). Preemption bounds: class 0: 2 quick / 3 thorough; class 1: 1 / 3; class 2: 1 / 2.
+	// Order: small scenarios first (a deadline on a loaded machine cuts the large ones, reported as not exhaustive),
+	// the seven large ones last and on different shards.
 	return []c22cScenario{
-		// filtering readers, the removal function, the cleaner
-		{"rejecting-and-accepting-readers", false, []c22cOp{S(0), S(2)}, T{{Q(33, 10, 'f')}, {Q(33, 10, 'a')}}},
-		{"remover-reader", false, []c22cOp{S(0), S(2)}, T{{R(0, 33)}, {Q(33, 10, 'a')}}},
-		{"cleaner-vs-rejecting-then-accepting-reader", false, []c22cOp{S(0), S(2), R(0, 33)}, T{{C}, {Q(36, 10, 'n'), Q(36, 10, 'a')}}},
-		{"cleaner-then-readd-vs-rejecting-reader", true, []c22cOp{S(0), S(1), S(2), R(0, 33)}, T{{C, S(0)}, {Q(36, 10, 'o')}}},
-		{"reject-all-then-accept-all-vs-adder", true, []c22cOp{S(0)}, T{{Q(33, 10, 'n'), Q(33, 10, 'a')}, {S(1)}}},
-		{"same-op-adders-rejecting-reader", true, nil, T{{S(0)}, {S(0)}, {Q(33, 10, 'n')}}},
-		{"remover-same-fact-adder", true, []c22cOp{S(0)}, T{{R(0, 33)}, {S(1), S(0)}}},
-		// adders of two operations of ONE fact, of different facts, a reader with a limit
-		{"same-fact-adders-reader", false, nil, T{{S(0)}, {S(1)}, {Q(33, 10, 'a')}}},
 		// adders of the SAME operation
-		{"same-op-adders-read-back", false, nil, T{{S(0), Q(33, 10, 'a')}, {S(0), Q(33, 10, 'a')}}},
-		{"same-op-adders-reader", false, nil, T{{S(0)}, {S(0)}, {Q(33, 10, 'a')}}},
-		{"same-op-adders-lookup", false, nil, T{{S(0), G(0)}, {S(0)}, {G(0)}}},
-		{"same-fact-adder-lookup-rejecting-reader", false, []c22cOp{S(0)}, T{{S(1), G(1)}, {Q(33, 10, 'o')}}},
-		{"adder-rejecting-reader", false, nil, T{{S(0)}, {Q(33, 10, 'n')}}},
-		{"different-facts-adders-limit-1", false, nil, T{{S(0)}, {S(2)}, {Q(33, 1, 'a')}}},
-		{"different-facts-adders-limit-1-twice", false, nil, T{{S(0), S(2)}, {Q(33, 1, 'a'), Q(33, 1, 'a')}}},
-		{"mixed-adders-limit-2", false, nil, T{{S(0), S(2)}, {S(3), S(1)}, {Q(33, 2, 'a')}}},
-		{"same-fact-adder-limit-1-then-all", false, []c22cOp{S(0)}, T{{S(1)}, {Q(33, 1, 'a'), Q(33, 10, 'a')}}},
-		{"two-limited-readers-duplicates", false, []c22cOp{S(0), S(2), S(1)}, T{{Q(33, 1, 'a')}, {Q(33, 2, 'a')}}},
-		{"adder-lookup-reader", false, nil, T{{S(0)}, {G(0)}, {Q(33, 10, 'a')}}},
-		{"cleaner-readder-reader", false, []c22cOp{S(0), S(2), R(0, 33), R(2, 36)}, T{{C}, {S(0)}, {Q(36, 10, 'a')}}},
-		{"cleaner-readder-lookup", false, []c22cOp{S(0), S(2), R(0, 33), R(2, 36)}, T{{C}, {S(0), G(0)}, {G(0)}}},
+		{"same-op-adders-reader", 0, nil, T{{S(0)}, {S(0)}, {Q(33, 10, 'a')}}},
+		{"same-op-adders-read-back", 0, nil, T{{S(0), Q(33, 10, 'a')}, {S(0), Q(33, 10, 'a')}}},
+		{"same-op-adders-lookup", 0, nil, T{{S(0), G(0)}, {S(0)}, {G(0)}}},
+		// an adder against readers and lookups
+		{"adder-rejecting-reader", 0, nil, T{{S(0)}, {Q(33, 10, 'n')}}},
+		{"adder-lookup-reader", 0, nil, T{{S(0)}, {G(0)}, {Q(33, 10, 'a')}}},
+		// adders of two operations of ONE fact, of different facts, a reader with a limit
+		{"same-fact-adders-reader", 0, nil, T{{S(0)}, {S(1)}, {Q(33, 10, 'a')}}},
+		{"different-facts-adders-limit-1", 0, nil, T{{S(0)}, {S(2)}, {Q(33, 1, 'a')}}},
+		{"different-facts-adders-limit-1-twice", 0, nil, T{{S(0), S(2)}, {Q(33, 1, 'a'), Q(33, 1, 'a')}}},
+		{"mixed-adders-limit-2", 0, nil, T{{S(0), S(2)}, {S(3), S(1)}, {Q(33, 2, 'a')}}},
+		{"same-fact-adder-limit-1-then-all", 0, []c22cOp{S(0)}, T{{S(1)}, {Q(33, 1, 'a'), Q(33, 10, 'a')}}},
+		{"two-limited-readers-duplicates", 0, []c22cOp{S(0), S(2), S(1)}, T{{Q(33, 1, 'a')}, {Q(33, 2, 'a')}}},
+		{"same-fact-adder-lookup-rejecting-reader", 0, []c22cOp{S(0)}, T{{S(1), G(1)}, {Q(33, 10, 'o')}}},
+		// the cleaner against a re-adder
+		{"cleaner-readder-reader", 0, []c22cOp{S(0), S(2), R(0, 33), R(2, 36)}, T{{C}, {S(0)}, {Q(36, 10, 'a')}}},
+		{"cleaner-readder-lookup", 0, []c22cOp{S(0), S(2), R(0, 33), R(2, 36)}, T{{C}, {S(0), G(0)}, {G(0)}}},
+		// filtering readers, the removal function, the cleaner against a filtering reader (large)
+		{"rejecting-and-accepting-readers", 1, []c22cOp{S(0), S(2)}, T{{Q(33, 10, 'f')}, {Q(33, 10, 'a')}}},
+		{"remover-reader", 1, []c22cOp{S(0), S(2)}, T{{R(0, 33)}, {Q(33, 10, 'a')}}},
+		{"cleaner-vs-rejecting-then-accepting-reader", 1, []c22cOp{S(0), S(2), R(0, 33)}, T{{C}, {Q(36, 10, 'n'), Q(36, 10, 'a')}}},
+		{"cleaner-then-readd-vs-rejecting-reader", 2, []c22cOp{S(0), S(1), S(2), R(0, 33)}, T{{C, S(0)}, {Q(36, 10, 'o')}}},
+		{"reject-all-then-accept-all-vs-adder", 2, []c22cOp{S(0)}, T{{Q(33, 10, 'n'), Q(33, 10, 'a')}, {S(1)}}},
+		{"same-op-adders-rejecting-reader", 2, nil, T{{S(0)}, {S(0)}, {Q(33, 10, 'n')}}},
+		{"remover-same-fact-adder", 2, []c22cOp{S(0)}, T{{R(0, 33)}, {S(1), S(0)}}},
 	}
 }
 
@@ -894,16 +898,16 @@ func TestVerifC22Conc(t *testing.T) {
 		"states = distinct (scenario, outcome); non-trivial = a scenario with more than one outcome")
 	r.Assume("unit conc: the added-at clock (util/localtime, real time) gives different nanoseconds to SetOperation calls of one execution (verified on the ordered keys at quiescence)")
 
-	bound, boundHeavy := vlib.Pick(r, 2, 3), vlib.Pick(r, 2, 2)
-	if v := os.Getenv("VERIF_C22C_BOUND"); v != "" { // tuning aid only; never set by run.sh
-		fmt.Sscanf(v, "%d", &bound)
-		boundHeavy = bound
+	bounds := vlib.Pick(r, [3]int{2, 1, 1}, [3]int{3, 3, 2}) // by scenario class
+	if v := os.Getenv("VERIF_C22C_BOUND"); v != "" {         // tuning aid only; never set by run.sh
+		var b int
+		fmt.Sscanf(v, "%d", &b)
+		bounds = [3]int{b, b, b}
 	}
 
 	only := os.Getenv("VERIF_C22C_ONLY") // tuning aid only; never set by run.sh
 
-	r.Set("conc_preemption_bound", bound)
-	r.Set("conc_preemption_bound_heavy_scenarios", boundHeavy)
+	r.Set("conc_preemption_bound_small_large_largest", bounds)
 
 	env := c22NewEnv(t)
 	scs := c22cScenarios()
@@ -950,10 +954,7 @@ func TestVerifC22Conc(t *testing.T) {
 			continue
 		}
 
-		bnd := bound
-		if s.heavy {
-			bnd = boundHeavy
-		}
+		bnd := bounds[s.class]
 
 		res := vsched.Explore(vsched.Config{Name: id, Bound: bnd, Build: build, Expired: r.Expired, MaxFound: 1, Horizon: 5000})
 		if res.EngineError != "" {
@@ -969,11 +970,8 @@ func TestVerifC22Conc(t *testing.T) {
 			r.Cap("conc: " + res.Capped + " in " + s.name)
 		}
 
-		if s.heavy {
-			r.Min("conc_preemption_bound_completed_heavy_scenarios", int64(res.BoundCompleted))
-		} else {
-			r.Min("conc_preemption_bound_completed", int64(res.BoundCompleted))
-		}
+		r.Min([]string{"conc_preemption_bound_completed_small", "conc_preemption_bound_completed_large",
+			"conc_preemption_bound_completed_largest"}[s.class], int64(res.BoundCompleted))
 
 		r.Max("conc_max_points_per_execution", int64(res.MaxPoints))
 
